@@ -238,6 +238,16 @@ def main():
     violations = []   # (kind, detail dict)
     notes = []
 
+    # 0. translator tie: regenerate the model tables from /repo's working tree
+    if spec.get("translator"):
+        r = sh([sys.executable, os.path.join(ROOT, spec["translator"])], timeout=600)
+        if r.returncode != 0:
+            rp = write_replay(prop, seed, "translator", {"log": (r.stdout + r.stderr)[-4000:],
+                              "broken": "the translator no longer reads /repo (model not regenerated)"})
+            print(f"VIOLATION property={prop} replay={rp} no-failing-input-found")
+            return 1
+        notes.append("translator: " + r.stdout.strip().splitlines()[-1])
+
     # 1. Lean
     forbidden = audit_sources()
     ok_build, _, build_log = lake_build(spec["lean_modules"])
